@@ -23,9 +23,10 @@ from .. import parserlab as lab
 from .. import factlab as fl
 
 LEVEL = "exploration"
-RULE = ("histories over a pool of 44 scripts (valid with differing requires, invalid, "
+RULE = ("histories over a pool of 55 scripts (valid with differing requires, invalid, "
         "truncated mid-string-list / mid-test-list / mid-block / mid-command, ending in "
-        "comments, with name/description hash comments) and 14 factory steps (definitions "
+        "comments, with name/description hash comments, scripts that name a comparator / "
+        "capability / identifier which another script uses in a different role) and 14 factory steps + 1 commands-API step (definitions "
         "using :regex/:count/:value/:copy/:create/:flags, body, envelope, currentdate, "
         "imap4flags actions; build + render): quick = all ordered pairs of steps with the "
         "last step being any pool step in reuse and fresh-parser mode, all (parse X and keep "
@@ -95,6 +96,20 @@ SCRIPTS = [
     '&',
     'if not { }',
     '',
+    # one script names a thing, a later one uses it in another role (comparators, match
+    # values, capability / command / tag names that only exist because an earlier script
+    # mentioned them)
+    'require "comparator-i;ascii-numeric"; keep;',
+    'if header :comparator "i;ascii-numeric" :is "a" "b" { keep; }',
+    'require ["comparator-i;unicode-casemap", "fileinto"]; fileinto "a";',
+    'if header :comparator "i;unicode-casemap" :is "a" "b" { keep; }',
+    'require ["x-custom", "comparator-x-custom"]; keep;',
+    'if header :comparator "x-custom" :is "a" "b" { keep; }',
+    'require "relational"; if header :count "x-custom" "a" "1" { keep; }',
+    'x-custom;',
+    'require "foobar"; keep;',
+    'if foobar { keep; }',
+    'keep :foobar;',
 ]
 
 # factory steps: (conditions, actions, matchtype)
@@ -114,6 +129,8 @@ FACTORY = [
     ([("size", ":over", "1k")], [("keep", ":flags", ["a"])], "anyof"),
     ([("true",)], [("vacation", ":seconds", 5, "r")], "anyof"),
     ([("notexists", "x")], [("reject", "no")], "allof"),
+    # not a filter: every extension registered through the commands API, outside any parse
+    ("api", "complete-a-require-by-hand", None),
 ]
 
 NSCRIPTS = len(SCRIPTS)
@@ -160,6 +177,8 @@ def run_step(step, parsers):
         return ("parse", v, repr(o.exc))
     _, fid = step
     conds, acts, mt = FACTORY[fid]
+    if conds == "api":
+        return ("api", lab.complete_require_by_hand())
     fs = fl.FiltersSet("h")
     r = fl.call(fs.addfilter, "f", list(conds), list(acts), mt)
     if r[0] != "ret":
@@ -258,6 +277,8 @@ def describe(step):
     if step[0] == "load":
         return {"parse-and-keep-parser-then-build-FiltersSet-at-the-end": SCRIPTS[step[1]]}
     c, a, m = FACTORY[step[1]]
+    if c == "api":
+        return {"commands-api": a}
     return {"factory": {"conditions": c, "actions": a, "matchtype": m}}
 
 
